@@ -156,6 +156,25 @@ Fixpoint out_eqb (a b : list (Z * (Z * Z) * list Z)) : bool :=
 """
 
 
+WIRE_HEADER = """Require Import V.C31.RealCodec.
+Fixpoint parse_all (fuel : nat) (wire : list Z) : list (Z * (Z * Z) * list Z) :=
+  match fuel with
+  | O => []
+  | S f => match wire with
+           | [] => []
+           | _ => match real_parse wire with
+                  | Some (m, rest) => (m_status m, fr_code (m_frame m), m_body m) :: parse_all f rest
+                  | None => [(-1, (2, 0), [])]
+                  end
+           end
+  end.
+"""
+
+
+def cnat_(n):
+    return "%d%%nat" % n
+
+
 def impl_outcome_literal(res):
     """what the implementation did, in the model's vocabulary: per response the status and
     body the CLIENT holds, and the framing seen on the WIRE"""
@@ -242,6 +261,22 @@ def run(ctx):
         why = prop_violation(shapes, res)
         if why:
             failing.append((shapes, [], gen, res, "real loopback: " + why))
+
+    # the REAL codec of the session theorems (C29's Respondent model, coq/C31/RealCodec.v real_parse)
+    # applied to the bytes the real Valet put on the wire must deliver what the real Patron filed
+    wire_cases, wire_meta = [], []
+    for (shapes, sched, gen, res) in metas:
+        if len(wire_cases) >= ctx.n(24, 400):
+            break
+        if res["stuck"] or res["error"] or not res["wire"] or len(res["wire"]) > 1500:
+            continue
+        wire_cases.append(("(parse_all %s %s)" % (cnat_(len(shapes) + 1), cbytes(res["wire"])), impl_outcome_literal(res)))
+        wire_meta.append((shapes, res))
+    badw = ctx.coq_cases(HEADER + WIRE_HEADER, "out_eqb", wire_cases, shard=6, name="wire")
+    for i in badw[:3]:
+        ctx.tie_broken("correspondence", "C31 RealCodec.real_parse (C29 Respondent model) vs Patron on the real wire",
+                       "shapes=%r wire=%r" % (wire_meta[i][0], wire_meta[i][1]["wire"][:300]))
+    ctx.extra["mismatches_wire"] = len(badw)
 
     bad = ctx.coq_cases(HEADER, "out_eqb", cases, shard=100)
     for i in bad[:5]:
